@@ -11,6 +11,7 @@ import (
 	"crypto/x509/pkix"
 	"encoding/pem"
 	"fmt"
+	"io"
 	"math/big"
 	"os"
 	"path/filepath"
@@ -18,6 +19,7 @@ import (
 	"strings"
 	"sync"
 	"testing"
+	"testing/iotest"
 	"time"
 
 	intoto "github.com/in-toto/in-toto-golang/in_toto"
@@ -150,10 +152,50 @@ func c19LoadWith(key *intoto.Key, data []byte, loader, scheme string, algs []str
 		}
 		return key.LoadKeyDefaults(path), nil
 	case "reader":
-		return key.LoadKeyReader(bytes.NewReader(data), scheme, algs), nil
+		return key.LoadKeyReader(c19Reader(data), scheme, algs), nil
 	default:
-		return key.LoadKeyReaderDefaults(bytes.NewReader(data)), nil
+		return key.LoadKeyReaderDefaults(c19Reader(data)), nil
 	}
+}
+
+// c19Reader hands the bytes over the way readers do: all at once, one byte per Read, in pieces of
+// 100 bytes, or with the end-of-file signalled together with the last bytes. The style is a function
+// of the data (nothing is drawn here).
+func c19Reader(data []byte) io.Reader {
+	style := len(data) % 4
+	if len(data) > 0 {
+		style = (len(data) + int(data[len(data)/2])) % 4
+	}
+	switch style {
+	case 1:
+		return iotest.OneByteReader(bytes.NewReader(data))
+	case 2:
+		return &chunkReader{data: data, n: 100}
+	case 3:
+		return iotest.DataErrReader(bytes.NewReader(data))
+	}
+	return bytes.NewReader(data)
+}
+
+type chunkReader struct {
+	data []byte
+	n    int
+}
+
+func (c *chunkReader) Read(p []byte) (int, error) {
+	if len(c.data) == 0 {
+		return 0, io.EOF
+	}
+	n := c.n
+	if n > len(p) {
+		n = len(p)
+	}
+	if n > len(c.data) {
+		n = len(c.data)
+	}
+	copy(p, c.data[:n])
+	c.data = c.data[n:]
+	return n, nil
 }
 
 func c19Gen(t *rapid.T) c19Case {
@@ -468,7 +510,7 @@ func TestC19(t *testing.T) {
 	hx.Assume("internal/spiffe cannot be imported from outside the module; its conversion is the composition PKCS#8 -> LoadKeyReaderDefaults -> attach certificate, which is what is exercised")
 	hx.Check[c19Case]{
 		Property: "C19", Part: "keys",
-		Rule:  "fresh RSA-2048/3072, ECDSA P-224/256/384/521, Ed25519 keys x two PEM forms of the same pair (PKCS#8, PKCS#1, SEC1, PKIX, certificate) x decoration (leading text, CRLF, trailing block/text, blank lines) x loader (file/reader, defaults/explicit scheme and hash list), optionally loading into a re-used Key value; identity, type, scheme, halves, cross sign/verify in both wrappers, distinctness from another pair; 1 in 5 cases is a negative (truncated, bad base64, encrypted, CSR, X25519, empty, nil reader, missing file, wrong scheme, bad hash algorithm, flipped byte); non-trivial = two different forms compared, or a negative; distinct by (kind, forms, decorations, loaders, scheme, algs)",
+		Rule:  "fresh RSA-2048/3072, ECDSA P-224/256/384/521, Ed25519 keys x two PEM forms of the same pair (PKCS#8, PKCS#1, SEC1, PKIX, certificate) x decoration (leading text, CRLF, trailing block/text, blank lines) x loader (file/reader - the reader delivering everything at once, byte by byte, in 100-byte pieces or with EOF on the last bytes -, defaults/explicit scheme and hash list), optionally loading into a re-used Key value; identity, type, scheme, halves, cross sign/verify in both wrappers, distinctness from another pair; 1 in 5 cases is a negative (truncated, bad base64, encrypted, CSR, X25519, empty, nil reader, missing file, wrong scheme, bad hash algorithm, flipped byte); non-trivial = two different forms compared, or a negative; distinct by (kind, forms, decorations, loaders, scheme, algs)",
 		Cases: hx.Pick(1500, 200000),
 		Gen:   c19Gen, Run: c19Run,
 	}.Execute(t)
